@@ -384,3 +384,33 @@ def _replay_script(self, path):
 
 
 Ctx.replay_script = _replay_script
+
+
+def _run_regressions(self):
+    """Witnesses of defects repaired by `fix:` commits are corpus entries: they run first on every check and raise the
+    violation again if it ever returns (a fixed entry suppresses nothing)."""
+    n = 0
+    for kf in self.known:
+        if kf.get("status") != "fixed" or not kf.get("witness"):
+            continue
+        path = kf["witness"] if os.path.isabs(kf["witness"]) else os.path.join(VERIF, kf["witness"])
+        if not os.path.exists(path):
+            continue
+        text = open(path).read()
+        if "--- script" not in text or "expect-last " not in text:
+            continue
+        head, script = text.split("--- script", 1)
+        lines, rc, err = self.script(script.lstrip("\n"))
+        n += 1
+        self.count(1, "regression:" + kf["id"])
+        ok = rc == 0 and bool(lines)
+        for l in head.split("\n"):
+            if l.startswith("expect-last ") and (not lines or l[len("expect-last "):].strip() not in lines[-1]):
+                ok = False
+        if not ok:
+            self.violation("regression-" + kf["id"], "# the defect repaired by %s is back: %s\n# last transcript line now: %s\n%s"
+                           % (kf.get("commit"), kf.get("text"), lines[-1] if lines else "(none, rc=%d)" % rc, text))
+    return n
+
+
+Ctx.run_regressions = _run_regressions
